@@ -707,3 +707,221 @@ Qed.
 Lemma ord_header_only_ok ac m0 ls st rest : OrdIO.header_loop ac ((if ac then set_reserved m0 (reserved_of alt_name_prefix ls) else m0), 0%N) ls = Ok (st, rest) ->
   ord_parse ac true m0 ls = Ok (mkOinst (fst st) (snd st) [] []).
 Proof. unfold ord_parse. intros ->. destruct st. reflexivity. Qed.
+
+(* ================================================================================================ *)
+(* 5. restyling                                                                                     *)
+(* ================================================================================================ *)
+Lemma remove_sp_app a b : remove_sp (a ++ b) = remove_sp a ++ remove_sp b.
+Proof. apply filter_app. Qed.
+
+Lemma remove_sp_lstrip x : remove_sp (lstrip_by is_space x) = lstrip_by is_space (remove_sp x).
+Proof.
+  induction x as [|c r IH]; [reflexivity|]. cbn [lstrip_by]. destruct (is_space c) eqn:E.
+  - rewrite IH. unfold remove_sp. cbn [filter]. destruct (negb (c =? 32)%N); [|reflexivity].
+    cbn [lstrip_by]. now rewrite E.
+  - unfold remove_sp. cbn [filter]. destruct (N.eqb_spec c 32) as [->|]; [discriminate E|].
+    cbn [negb lstrip_by]. now rewrite E.
+Qed.
+
+Lemma remove_sp_rev x : remove_sp (rev x) = rev (remove_sp x).
+Proof. apply filter_rev'. Qed.
+
+(* removing U+0020 commutes with strip() *)
+Lemma remove_sp_strip x : remove_sp (strip x) = strip (remove_sp x).
+Proof.
+  unfold strip, strip_by, rstrip_by. rewrite remove_sp_rev, remove_sp_lstrip, remove_sp_rev, remove_sp_lstrip.
+  reflexivity.
+Qed.
+
+Lemma key_alt x : key x = strip (remove_sp x).
+Proof. apply remove_sp_strip. Qed.
+
+Lemma strip_pad a s b : forallb is_space a = true -> forallb is_space b = true -> strip (a ++ s ++ b) = strip s.
+Proof.
+  intros Ha Hb. rewrite app_assoc. rewrite strip_nl_r by exact Hb.
+  unfold strip, strip_by. now rewrite lstrip_by_all.
+Qed.
+
+Lemma forallb_filter {T} (p g : T -> bool) l : forallb p l = true -> forallb p (filter g l) = true.
+Proof. rewrite !forallb_forall. intros H x Hx. apply filter_In in Hx as [Hx _]. now apply H. Qed.
+
+Lemma is_pad_space l : forallb is_pad l = true -> forallb is_space l = true.
+Proof.
+  rewrite !forallb_forall. intros H x Hx. specialize (H x Hx). unfold is_pad in H. now apply andb_true_iff in H as [H _].
+Qed.
+Lemma is_pad_no_break l : forallb is_pad l = true -> no_break l = true.
+Proof.
+  unfold no_break. rewrite !forallb_forall. intros H x Hx. specialize (H x Hx). unfold is_pad in H.
+  now apply andb_true_iff in H as [_ H].
+Qed.
+
+Lemma remove_sp_repeat k : remove_sp (repeat 32%N k) = [].
+Proof. induction k; [reflexivity|]. exact IHk. Qed.
+
+Lemma remove_sp_spread l : forall prev g, remove_sp (spread prev g l) = remove_sp l.
+Proof.
+  induction l as [|c r IH]; intros prev g; [reflexivity|]. cbn [spread].
+  rewrite remove_sp_app.
+  assert (E : forall b : bool, remove_sp (if b then repeat 32%N (hd 0%nat g) else []) = []).
+  { intros b. destruct b; [apply remove_sp_repeat|reflexivity]. }
+  rewrite E. cbn [app]. change (c :: spread (Some c) (tl g) r) with ([c] ++ spread (Some c) (tl g) r).
+  change (c :: r) with ([c] ++ r). rewrite !remove_sp_app. now rewrite IH.
+Qed.
+
+Lemma no_break_app a b : no_break (a ++ b) = no_break a && no_break b.
+Proof. apply forallb_app. Qed.
+
+Lemma no_break_repeat k : no_break (repeat 32%N k) = true.
+Proof. induction k; [reflexivity|]. exact IHk. Qed.
+
+Lemma no_break_spread l : forall prev g, no_break l = true -> no_break (spread prev g l) = true.
+Proof.
+  induction l as [|c r IH]; intros prev g H; [reflexivity|]. cbn [spread]. rewrite no_break_app.
+  change (c :: r) with ([c] ++ r) in H. rewrite no_break_app in H. apply andb_true_iff in H as [Hc Hr].
+  assert (E : forall b : bool, no_break (if b then repeat 32%N (hd 0%nat g) else []) = true).
+  { intros b. destruct b; [apply no_break_repeat|reflexivity]. }
+  rewrite E. cbn [andb]. change (c :: spread (Some c) (tl g) r) with ([c] ++ spread (Some c) (tl g) r).
+  rewrite no_break_app, Hc. cbn [andb]. now apply IH.
+Qed.
+
+Lemma spread_nonempty l prev g : l <> [] -> spread prev g l <> [].
+Proof. destruct l as [|c r]; [easy|]. intros _. cbn [spread]. now destruct (if gap_ok prev c then _ else _). Qed.
+
+(* the content of a restyled line (without its terminator) *)
+Definition styled_line (st : linestyle) (l : text) : text :=
+  lead st ++ (if is_header_line l then l else spread None (gaps st) l) ++ trail st.
+
+Fixpoint styled (pads : list linestyle) (ls : list text) : list (text * eol) :=
+  match ls with
+  | [] => []
+  | l :: r => (styled_line (hd plain pads) l, term (hd plain pads)) :: styled (tl pads) r
+  end.
+
+Lemma restyle_lines_assemble ls : forall pads, restyle_lines pads ls = assemble (styled pads ls).
+Proof.
+  induction ls as [|l r IH]; intros pads; [reflexivity|].
+  cbn [restyle_lines styled assemble flat_map fst snd]. fold (assemble (styled (tl pads) r)). rewrite IH.
+  unfold restyle_line, styled_line. now rewrite <- !app_assoc.
+Qed.
+
+Lemma styled_line_equiv st l : wf_style st = true -> line_equiv (styled_line st l) l.
+Proof.
+  intros Hst. unfold wf_style in Hst. apply andb_true_iff in Hst as [Ha Hb].
+  apply is_pad_space in Ha. apply is_pad_space in Hb.
+  unfold styled_line. change (is_header_line l) with (hashed l). destruct (hashed l) eqn:Hh.
+  - left. now apply strip_pad.
+  - assert (K : key (lead st ++ spread None (gaps st) l ++ trail st) = key l).
+    { rewrite !key_alt. rewrite !remove_sp_app, remove_sp_spread.
+      apply strip_pad; now apply forallb_filter. }
+    right. split; [|exact K]. rewrite hashed_key, K, <- hashed_key. exact Hh.
+Qed.
+
+Lemma styled_line_no_break st l : wf_style st = true -> no_break l = true -> no_break (styled_line st l) = true.
+Proof.
+  intros Hst Hl. unfold wf_style in Hst. apply andb_true_iff in Hst as [Ha Hb].
+  unfold styled_line. rewrite !no_break_app. rewrite (is_pad_no_break _ Ha), (is_pad_no_break _ Hb).
+  destruct (is_header_line l); [now rewrite Hl|]. now rewrite no_break_spread.
+Qed.
+
+Lemma styled_line_nonempty st l : l <> [] -> styled_line st l <> [].
+Proof.
+  intros Hl. unfold styled_line. intros E. apply app_eq_nil in E as [_ E]. apply app_eq_nil in E as [E _].
+  destruct (is_header_line l); [easy|]. revert E. now apply spread_nonempty.
+Qed.
+
+Lemma wf_pad_hd pads : wf_pad pads = true -> wf_style (hd plain pads) = true.
+Proof. destruct pads as [|p r]; [reflexivity|]. simpl. now intros H%andb_true_iff. Qed.
+Lemma wf_pad_tl pads : wf_pad pads = true -> wf_pad (tl pads) = true.
+Proof. destruct pads as [|p r]; [reflexivity|]. simpl. now intros H%andb_true_iff. Qed.
+
+Definition line_ok (l : text) : Prop := no_break l = true /\ l <> [].
+
+Lemma styled_facts ls : forall pads, wf_pad pads = true -> Forall line_ok ls ->
+  Forall seg_ok (styled pads ls) /\ Forall (fun p => fst p <> []) (styled pads ls) /\
+  Forall2 line_equiv (map fst (styled pads ls)) ls.
+Proof.
+  induction ls as [|l r IH]; intros pads Hp HL; [repeat split; constructor|].
+  inversion HL as [|x y [Hb Hn] Hr]; subst.
+  destruct (IH (tl pads) (wf_pad_tl _ Hp) Hr) as [A [B C]]. pose proof (wf_pad_hd _ Hp) as Hs.
+  cbn [styled map fst]. repeat split; constructor; try assumption.
+  - unfold seg_ok. cbn [fst]. now apply styled_line_no_break.
+  - cbn [fst]. now apply styled_line_nonempty.
+  - now apply styled_line_equiv.
+Qed.
+
+(* lf_lines inverts unlines *)
+Lemma lf_lines_aux_line l : forall cur rest, no_nlcr l = true ->
+  lf_lines_aux cur (l ++ 10%N :: rest) = (rev cur ++ l) :: lf_lines_aux [] rest.
+Proof.
+  induction l as [|c r IH]; intros cur rest H.
+  - cbn [app lf_lines_aux]. change (N.eqb 10 10) with true. cbv iota. now rewrite app_nil_r.
+  - simpl in H. apply andb_true_iff in H as [Hc Hr]. apply andb_true_iff in Hc as [H10 _].
+    apply negb_true_iff in H10. cbn [app lf_lines_aux]. rewrite H10. rewrite IH by exact Hr.
+    cbn [rev]. now rewrite <- app_assoc.
+Qed.
+
+Lemma lf_lines_unlines ls : forallb no_nlcr ls = true -> lf_lines (unlines ls) = ls.
+Proof.
+  unfold lf_lines. induction ls as [|l r IH]; intros H; [reflexivity|].
+  simpl in H. apply andb_true_iff in H as [Hl Hr]. cbn [unlines flat_map]. fold (unlines r).
+  unfold nl. rewrite <- app_assoc. cbn [app]. rewrite lf_lines_aux_line by exact Hl. cbn [rev app].
+  now rewrite IH.
+Qed.
+
+Lemma Forall2_map_l {A B C} (R : B -> C -> Prop) (f : A -> B) l l' :
+  Forall2 (fun a c => R (f a) c) l l' -> Forall2 R (map f l) l'.
+Proof. induction 1; constructor; assumption. Qed.
+Lemma Forall2_map_r {A B C} (R : A -> C -> Prop) (f : B -> C) l l' :
+  Forall2 (fun a b => R a (f b)) l l' -> Forall2 R l (map f l').
+Proof. induction 1; constructor; assumption. Qed.
+Lemma Forall2_impl' {A B} (R S : A -> B -> Prop) l l' : (forall a b, R a b -> S a b) -> Forall2 R l l' -> Forall2 S l l'.
+Proof. intros H. induction 1; constructor; auto. Qed.
+Lemma Forall2_of_map {A B} (R : B -> B -> Prop) (f : A -> B) (l : list A) :
+  (forall a, R (f a) (f a)) -> Forall2 R (map f l) (map f l).
+Proof. intros H. induction l; constructor; auto. Qed.
+
+(* the lines every entry point extracts from the restyled text are equivalent to the canonical lines *)
+Theorem restyle_lines_equiv e pads ls : wf_pad pads = true -> Forall line_ok ls ->
+  Forall2 line_equiv (split_entry e (restyle pads (unlines ls))) (readlines (unlines ls)).
+Proof.
+  intros Hp HL.
+  assert (NB : forallb no_break ls = true).
+  { apply forallb_forall. intros l Hl. rewrite Forall_forall in HL. now apply HL. }
+  pose proof (forallb_no_nlcr _ NB) as NN.
+  unfold restyle. rewrite lf_lines_unlines by exact NN. rewrite restyle_lines_assemble.
+  rewrite readlines_unlines by exact NN.
+  destruct (styled_facts ls pads Hp HL) as [A [B C]].
+  pose proof (cr_safe_nonempty _ A B) as S.
+  destruct (splitters_proof _ A S) as [R1 [R2 [R3 _]]].
+  assert (G : forall (f g : text -> text), (forall x, strip (f x) = strip x) -> (forall x, strip (g x) = strip x) ->
+              Forall2 line_equiv (map f (map fst (styled pads ls))) (map g ls)).
+  { intros f g Hf Hg. apply Forall2_map_l, Forall2_map_r. eapply Forall2_impl'; [|exact C].
+    intros a b H. cbv beta. eapply line_equiv_trans; [left; apply Hf|]. eapply line_equiv_trans; [exact H|].
+    left. symmetry. apply Hg. }
+  destruct e; cbn [split_entry].
+  - rewrite R1. rewrite <- (map_map fst (fun x => x ++ nl)). apply G; intros x; apply strip_nl.
+  - rewrite R2. rewrite <- (map_id (map fst (styled pads ls))). apply G; [reflexivity|intros x; apply strip_nl].
+  - rewrite R3. apply G; [apply strip_idem|intros x; apply strip_nl].
+Qed.
+
+(* C10_entrypoints, general form: for ANY text made of non-empty LF-terminated lines without line-boundary
+   characters (not only written files), every entry point on every restyling = parse_file on the text itself *)
+Theorem entrypoints_text_proof e c dt f pads ls : wf_pad pads = true -> Forall line_ok ls ->
+  parse_entry e c dt f (restyle pads (unlines ls)) = parse_file_model c dt f (unlines ls).
+Proof.
+  intros Hp HL. unfold parse_entry, parse_file_model. apply parse_lines_equiv. now apply restyle_lines_equiv.
+Qed.
+
+(* without restyling: the three entry points agree on the canonical text *)
+Corollary entrypoints_plain_proof e c dt f ls : Forall line_ok ls ->
+  parse_entry e c dt f (unlines ls) = parse_file_model c dt f (unlines ls).
+Proof.
+  intros HL.
+  assert (NB : forallb no_break ls = true).
+  { apply forallb_forall. intros l Hl. rewrite Forall_forall in HL. now apply HL. }
+  unfold parse_entry, parse_file_model. apply parse_lines_strip.
+  destruct e; cbn [split_entry]; [reflexivity| |]; rewrite readlines_unlines by (now apply forallb_no_nlcr).
+  - rewrite splitlines_unlines by exact NB. rewrite map_map. apply map_ext. intros x. now rewrite strip_nl.
+  - unfold urllines. rewrite splitlines_unlines by exact NB. rewrite !map_map. apply map_ext. intros x.
+    now rewrite strip_idem, strip_nl.
+Qed.
